@@ -413,7 +413,7 @@ def failure_of(e, dm):
     return None
 
 
-def plant_failure(root, r, dm):
+def plant_failure(root, r, dm, allow_src=False):
     """Insert one really failing element at a random position of a random executable block.  -> description or None"""
     blocks = [e for e in root.walk() if e.tag in ("onentry", "onexit") or (e.tag == "transition" and e.parent.tag not in ("history",))
               or e.tag == "if"]
@@ -429,7 +429,8 @@ def plant_failure(root, r, dm):
             root.children.insert(0, dmel[0])
             dmel[0].parent = root
         at = {"id": "vbad", "expr": r.choice(BAD_EXPR[dm])}
-        if r.random() < 0.35:
+        if allow_src and r.random() < 0.25:
+            # (fetched by uSCXML's URL fetcher thread through libcurl: real, if local, I/O - only where it is the point)
             at = {"id": "vbad", "src": BAD_SRC}
         if dm == "promela":
             at["type"] = "int"
